@@ -108,16 +108,71 @@ type c07Ctx struct {
 	ifTrue, ifFalse string
 }
 
-var c07Ctxs = []c07Ctx{
-	{"if", func(e string) string { return "<%= if (" + e + ") { %>T<% } else { %>F<% } %>" }, "T", "F"},
-	{"elseif", func(e string) string {
-		return "<%= if (false) { %>X<% } else if (" + e + ") { %>T<% } else { %>F<% } %>"
-	}, "T", "F"},
-	{"not", func(e string) string { return "<%= !" + e + " %>" }, "false", "true"},
-	{"notnot", func(e string) string { return "<%= !!" + e + " %>" }, "true", "false"},
-	{"and-true", func(e string) string { return "<%= " + e + " && true %>" }, "true", "false"},
-	{"or-false", func(e string) string { return "<%= " + e + " || false %>" }, "true", "false"},
+// The truth-testing expression forms (operand positions included: the value as the left AND as the right
+// operand of && / ||, and as both) ...
+var c07ExprForms = []struct {
+	name   string
+	wrap   func(e string) string
+	negate bool
+}{
+	{"", func(e string) string { return e }, false},
+	{"paren", func(e string) string { return "(" + e + ")" }, false},
+	{"not", func(e string) string { return "!" + e }, true},
+	{"notnot", func(e string) string { return "!!" + e }, false},
+	{"and-true", func(e string) string { return e + " && true" }, false},
+	{"or-false", func(e string) string { return e + " || false" }, false},
+	{"true-and", func(e string) string { return "true && " + e }, false},
+	{"false-or", func(e string) string { return "false || " + e }, false},
+	{"self-and", func(e string) string { return e + " && " + e }, false},
+	{"self-or", func(e string) string { return e + " || " + e }, false},
 }
+
+// ... crossed with where the expression stands: printed, the condition of an if, the condition of an else-if.
+// (The first six keep their historical names: if, elseif, not, notnot, and-true, or-false.)
+var c07Ctxs = func() []c07Ctx {
+	var cs []c07Ctx
+	tf := func(neg bool) (string, string) {
+		if neg {
+			return "F", "T"
+		}
+		return "T", "F"
+	}
+	for _, pos := range []string{"print", "if", "elseif"} {
+		for _, ef := range c07ExprForms {
+			ef := ef
+			switch pos {
+			case "print":
+				if ef.name == "" || ef.name == "paren" {
+					continue // printing the value itself is not a truth test
+				}
+				t, f := "true", "false"
+				if ef.negate {
+					t, f = f, t
+				}
+				cs = append(cs, c07Ctx{ef.name, func(e string) string { return "<%= " + ef.wrap(e) + " %>" }, t, f})
+			case "if":
+				name := "if"
+				if ef.name != "" {
+					name = "if-" + ef.name
+				}
+				t, f := tf(ef.negate)
+				cs = append(cs, c07Ctx{name, func(e string) string {
+					return "<%= if (" + ef.wrap(e) + ") { %>T<% } else { %>F<% } %>"
+				}, t, f})
+			case "elseif":
+				name := "elseif"
+				if ef.name != "" {
+					name = "elseif-" + ef.name
+				}
+				t, f := tf(ef.negate)
+				cs = append(cs, c07Ctx{name, func(e string) string {
+					return "<%= if (false) { %>X<% } else if (" + ef.wrap(e) + ") { %>T<% } else { %>F<% } %>"
+				}, t, f})
+			}
+		}
+	}
+	return cs
+}()
 
 func c07Matrix(rep *Report, k c07KindT) {
 	type cell struct {
@@ -188,7 +243,7 @@ func c07Matrix(rep *Report, k c07KindT) {
 	}
 	if uniform && cells[0].truth >= 0 && cells[0].truth != spec {
 		rep.Fail(Failure{Case: caseText, Kind: "wrong-output", Site: "truthiness-" + k.name,
-			What: "all six contexts agree with each other but not with the statement; " + summary})
+			What: "all contexts agree with each other but not with the statement; " + summary})
 	}
 }
 
@@ -205,8 +260,11 @@ var c07Forms = map[string]struct {
 	"nn": {func(c string) string { return "!!" + c }, false},
 	"a":  {func(c string) string { return c + " && true" }, false},
 	"o":  {func(c string) string { return c + " || false" }, false},
+	// the condition's value as the RIGHT operand (the left one does not short-circuit)
+	"ra": {func(c string) string { return "true && " + c }, false},
+	"ro": {func(c string) string { return "false || " + c }, false},
 }
-var c07FormNames = []string{"p", "g", "n", "nn", "a", "o"}
+var c07FormNames = []string{"p", "g", "n", "nn", "a", "o", "ra", "ro"}
 
 type c07Wrap struct {
 	name     string
@@ -261,8 +319,16 @@ func c07WrapByName(n string) (c07Wrap, bool) {
 type c07Chain struct {
 	wrap    c07Wrap
 	hasElse bool
-	forms   []string   // per condition
-	rows    [][]string // rows[x][i] = kind name returned by c<i>(x)
+	forms   []string // per condition
+	// rows[x][i] = kind name returned by c<i>(x). A kind that is not a Go value (a literal, nil, an unset
+	// name) is written in place of the helper call as condition i; it then is the same in every row and
+	// that condition carries no counter.
+	rows [][]string
+}
+
+// condition i is an expression written into the template instead of a call of the counting helper
+func (c c07Chain) literalAt(i int) bool {
+	return len(c.rows) > 0 && i < len(c.rows[0]) && !c07KindMap[c.rows[0][i]].isVar
 }
 
 func (c c07Chain) text() string {
@@ -322,11 +388,18 @@ func c07ParseChain(s string) (c07Chain, error) {
 			return c, fmt.Errorf("row length != number of forms")
 		}
 		for _, k := range ks {
-			if kk, ok := c07Kind(k); !ok || !kk.isVar {
-				return c, fmt.Errorf("kind %q cannot be a helper's return value", k)
+			if _, ok := c07Kind(k); !ok {
+				return c, fmt.Errorf("unknown kind %q", k)
 			}
 		}
 		c.rows = append(c.rows, ks)
+	}
+	for x := 1; x < len(c.rows); x++ {
+		for i, k := range c.rows[x] {
+			if (!c07KindMap[k].isVar || c.literalAt(i)) && k != c.rows[0][i] {
+				return c, fmt.Errorf("condition %d: a kind written as an expression must be the same in every row", i)
+			}
+		}
 	}
 	if len(c.rows) != c.wrap.rows {
 		return c, fmt.Errorf("wrap %s needs %d row(s)", c.wrap.name, c.wrap.rows)
@@ -343,7 +416,11 @@ func (c c07Chain) tmpl() string {
 		return "{ %>" + m + "<% }"
 	}
 	for i, fm := range c.forms {
-		cond := c07Forms[fm].wrap(fmt.Sprintf("c%d(x)", i))
+		operand := fmt.Sprintf("c%d(x)", i)
+		if c.literalAt(i) {
+			operand = c07KindMap[c.rows[0][i]].expr
+		}
+		cond := c07Forms[fm].wrap(operand)
 		if i == 0 {
 			b.WriteString("if (" + cond + ") " + body("B0"))
 		} else {
@@ -378,7 +455,9 @@ func c07EvalChain(c c07Chain) c07ChainObs {
 		}
 		sel := -1
 		for i, kn := range row {
-			wantCalls[i]++
+			if kinds[kn].isVar {
+				wantCalls[i]++
+			}
 			if kinds[kn].truthy != c07Forms[c.forms[i]].negate {
 				sel = i
 				break
@@ -516,6 +595,82 @@ func c07RunChain(rep *Report, seen map[string]bool, c c07Chain, stream string) {
 					}
 				}
 			}
+			// each kind alone is fine: is it one kind in its position of the chain (all other conditions
+			// plain bools)? Then that, at top level if it shows there, is the family.
+			if !blamed {
+				for i := range c.forms {
+					col := false
+					for _, row := range c.rows {
+						col = col || !strings.HasPrefix(row[i], "bool-")
+					}
+					if !col {
+						continue
+					}
+					ci := c
+					ci.forms = c07Plain(len(c.forms))
+					ci.forms[i] = c.forms[i]
+					ci.rows = nil
+					for _, row := range c.rows {
+						nr := make([]string, len(row))
+						for j, kn := range row {
+							nr[j] = kn
+							if j != i {
+								nr[j] = c07BoolName(c07KindMap[kn].truthy != c07Forms[c.forms[j]].negate)
+							}
+						}
+						ci.rows = append(ci.rows, nr)
+					}
+					ri := c07EvalChain(ci)
+					if len(ri.symptoms) == 0 {
+						continue
+					}
+					form := c.forms[i]
+					if form != "p" && !c07Forms[form].negate { // does it need the form at all?
+						cp := ci
+						cp.forms = c07Plain(len(c.forms))
+						if rp := c07EvalChain(cp); len(rp.symptoms) > 0 {
+							ci, ri, form = cp, rp, "p"
+						}
+					}
+					where := "elseif"
+					if i == 0 {
+						where = "if"
+					}
+					site := func(kn string) func(string) string {
+						return func(sy string) string {
+							s := "chain-" + sy + "-kind-" + kn + "-as-" + where + "-condition"
+							if form != "p" {
+								s += "-form-" + form
+							}
+							return s
+						}
+					}
+					atTop := false
+					if ci.wrap.name != "top" {
+						for _, row := range ci.rows {
+							t := c07Chain{wrap: top, hasElse: ci.hasElse, forms: ci.forms, rows: [][]string{row}}
+							if rt := c07EvalChain(t); len(rt.symptoms) > 0 {
+								atTop, blamed = true, true
+								c07FailChain(rep, seen, t, rt, site(row[i]))
+							}
+						}
+					}
+					if !atTop {
+						blamed = true
+						in := ""
+						if ci.wrap.name != "top" {
+							in = "-in-" + ci.wrap.name
+						}
+						kn := ci.rows[0][i]
+						for _, row := range ci.rows {
+							if !strings.HasPrefix(row[i], "bool-") {
+								kn = row[i]
+							}
+						}
+						c07FailChain(rep, seen, ci, ri, func(sy string) string { return site(kn)(sy) + in })
+					}
+				}
+			}
 			if !blamed {
 				c07FailChain(rep, seen, c, r, func(sy string) string { return "chain-" + sy + "-nonbool-conditions-unattributed" })
 			}
@@ -602,14 +757,15 @@ func init() {
 	oracles["C07"] = func(cfg Config) []*Report {
 		rep := NewReport("C07", "C07", cfg)
 		rep.Exhaustive = true
-		rep.Rule = "(a) matrix: 42 value kinds (context variable v, a literal, nil, an unset name) x 6 contexts {if (v), else if (v), !v, !!v, v && true, v || false}; " +
-			"the six must agree with each other and with the statement's falsy list. " +
-			"(b) chains if / else if ... / else whose conditions are counting helpers c0(x), c1(x), ...: exhaustively every truth assignment for 1..5 conditions (thorough: 1..7), with and without else, " +
+		rep.Rule = fmt.Sprintf("(a) matrix: %d value kinds (context variable v, a literal, nil, an unset name) x %d contexts: the expression forms {v, (v), !v, !!v, v && true, v || false, true && v, false || v, v && v, v || v} ", len(c07AllKinds), len(c07Ctxs)) +
+			"each printed, as an if condition and as an else-if condition (printing v / (v) itself is no truth test); all must agree with each other and with the statement's falsy list. " +
+			"(b) chains if / else if ... / else whose conditions are counting helpers c0(x), c1(x), ... or, for kinds that are not Go values (literals, nil, an unset name), the expression itself (no counter): " +
+			"exhaustively every truth assignment for 1..5 conditions (thorough: 1..7), with and without else, " +
 			"in 12 placements (top level with template-text and with return bodies, silent tag [counters only], inside for, user function, block helper, a branch of another if, and two compositions); " +
 			"placements that evaluate the chain twice (for, fn) take every PAIR of assignments up to 5 (thorough: 6) conditions. " +
-			"(kind-at-position) every returnable kind as the value returned by the condition at position 0,1,2 of a 3-chain. " +
-			"(random) chains of 1..6 conditions whose helpers return values of random kinds and whose conditions are written c(x), (c(x)), !c(x), !!c(x), c(x) && true, c(x) || false. " +
-			"Checked: exactly the marker of the first truthy condition is rendered (else marker or nothing), each condition up to the selected one is called once per evaluation and none after it. " +
+			"(kind-at-position) every kind as the condition at position 0,1,2 of a 3-chain, the other two conditions taking every truth assignment; at top level in all 8 condition forms with and without else, in the 11 other placements plainly with else. " +
+			"(random) chains of 1..6 conditions of random kinds (returned by the helper or written), the conditions written c, (c), !c, !!c, c && true, c || false, true && c, false || c. " +
+			"Checked: exactly the marker of the first truthy condition is rendered (else marker or nothing), each counted condition up to the selected one is called once per evaluation and none after it. " +
 			"Every case reaches evalIfExpression / isTruthy; distinct by case text."
 		rep.Notes = []string{
 			"a context variable set to untyped nil is indistinguishable from an unset name in plush and is covered by kind unknown-identifier",
@@ -648,10 +804,12 @@ func init() {
 		for _, k := range kinds {
 			c07Matrix(rep, k)
 		}
-		var returnable []string
+		var returnable, written []string
 		for _, k := range kinds {
 			if k.isVar {
 				returnable = append(returnable, k.name)
+			} else {
+				written = append(written, k.name)
 			}
 		}
 
@@ -681,16 +839,42 @@ func init() {
 				}
 			}
 		}
-		// kind at position
-		top, _ := c07WrapByName("top")
-		for _, kn := range returnable {
+		// kind at position: every kind (returned by the helper, or written as the condition) at position
+		// 0,1,2 of a 3-chain, the two other conditions taking every truth assignment
+		for _, k := range kinds {
 			for pos := 0; pos < 3; pos++ {
-				for _, fm := range c07FormNames {
-					row := []string{"bool-false", "bool-false", "bool-false"}
-					forms := c07Plain(3)
-					row[pos] = kn
-					forms[pos] = fm
-					c07RunChain(rep, seen, c07Chain{wrap: top, hasElse: true, forms: forms, rows: [][]string{row}}, "kind-at-position")
+				for bits := 0; bits < 4; bits++ {
+					mk := func(b int) []string {
+						row := make([]string, 0, 3)
+						for j, o := 0, 0; j < 3; j++ {
+							if j == pos {
+								row = append(row, k.name)
+								continue
+							}
+							row = append(row, c07BoolName(b>>uint(o)&1 == 1))
+							o++
+						}
+						return row
+					}
+					for _, w := range c07Wraps {
+						for _, fm := range c07FormNames {
+							if w.name != "top" && fm != "p" {
+								continue
+							}
+							for _, hasElse := range []bool{true, false} {
+								if w.name != "top" && !hasElse {
+									continue
+								}
+								forms := c07Plain(3)
+								forms[pos] = fm
+								rows := [][]string{mk(bits)}
+								if w.rows == 2 {
+									rows = append(rows, mk(3-bits))
+								}
+								c07RunChain(rep, seen, c07Chain{wrap: w, hasElse: hasElse, forms: forms, rows: rows}, "kind-at-position")
+							}
+						}
+					}
 				}
 			}
 		}
@@ -713,11 +897,24 @@ func init() {
 						row[j] = "bool-false"
 					case r.Chance(25):
 						row[j] = "bool-true"
+					case r.Chance(20):
+						row[j] = Pick(r, written)
 					default:
 						row[j] = Pick(r, returnable)
 					}
 				}
 				c.rows = append(c.rows, row)
+			}
+			// a kind written as an expression is part of the template: the same in every row
+			for j := 0; j < n; j++ {
+				for x := range c.rows {
+					if !c07KindMap[c.rows[x][j]].isVar {
+						for y := range c.rows {
+							c.rows[y][j] = c.rows[x][j]
+						}
+						break
+					}
+				}
 			}
 			c07RunChain(rep, seen, c, "random")
 		}
